@@ -117,6 +117,14 @@ func RunCase(c *Case) (out *Outcome, err error) {
 func runCaseEx(c *Case) (out *Outcome, classes []string, err error) {
 	e := &Exec{c: c, hist: NewHistory(), out: &Outcome{Case: c, Faults: map[string]int{}, Probes: map[string]int{}},
 		probes: map[string]bool{}, shapes: map[string]bool{}, opts: c.Opts}
+	mergeRefuseTask, mergeRefuseBg, mergeRefusedBg, oracleDepth = nil, 0, 0, 0
+	mergeRefusedHook = func() { e.fs.FaultSeen++ }
+	defer func() {
+		if out != nil && mergeRefusedBg > 0 {
+			out.Probes["background-merge-refused"] += mergeRefusedBg
+		}
+		mergeRefuseBg = 0
+	}()
 	dir := fmt.Sprintf("/dev/shm/verif-run-%d-%d", os.Getpid(), atomic.AddInt64(&runSeq, 1))
 	os.RemoveAll(dir)
 	if err := os.MkdirAll(dir, 0700); err != nil {
@@ -553,6 +561,8 @@ func (e *Exec) onPersistRound() {
 	}()
 	simrt.NoPreempt(true)
 	defer simrt.NoPreempt(false)
+	oracleDepth++
+	defer func() { oracleDepth-- }()
 	j := e.checkStore("persist-round")
 	if e.noRoundChecks || e.store == nil {
 		return // the driver closed the store while this callback was looking at it
@@ -587,6 +597,10 @@ func (e *Exec) step(op Op) {
 		e.doBigKV(op)
 	case "getErr":
 		e.doGetErr(op)
+	case "bgRefuse":
+		if e.opts.MergeOp && e.collOpen {
+			mergeRefuseBg = 1 + op.N
+		}
 	case "verify":
 		e.checkColl("verify")
 	case "notify":
